@@ -64,15 +64,16 @@ type resolver struct {
 
 func (r *resolver) module(y *Module) error {
 	r.loadedModules[y.ident] = y
+	// exand all includes
+	if err := r.copyOverIncludes(y, y.includes); err != nil {
+		return err
+	}
+
+	// the features a submodule defines are features of the module
 	if y.featureSet != nil {
 		if err := y.featureSet.Initialize(y); err != nil {
 			return err
 		}
-	}
-
-	// exand all includes
-	if err := r.copyOverIncludes(y, y.includes); err != nil {
-		return err
 	}
 
 	// expand all imports first because local uses may reference groupings in other files.
